@@ -401,6 +401,17 @@ class Fn:
             if a is not None and b2 is not None and {a, b2} == {self.cx.ROWS, self.cx.COLS}:
                 # both operands must be reads at the current values: single-def temps read right before; accept
                 return "P"
+            # .. or the two factors are the very values that the function stores into the two dimension fields (each field
+            # stored exactly once): `toodee.num_cols = c; toodee.num_rows = r; vec.set_len(c * r)`
+            stores = {}
+            for bi_, si_, st_ in self.b.stmts():
+                if st_["k"] == "assign" and not self.b.blocks[bi_]["cleanup"]:
+                    which = self.dim_field(st_["p"])
+                    if which is not None and st_["rv"]["k"] == "use":
+                        stores.setdefault(which, []).append(show(strip(self.d.expr(st_["rv"]["o"]))))
+            if set(stores) == {self.cx.ROWS, self.cx.COLS} and all(len(v) == 1 for v in stores.values()):
+                if {stores[self.cx.ROWS][0], stores[self.cx.COLS][0]} == {show(strip(e[2])), show(strip(e[3]))} and stores[self.cx.ROWS][0] != stores[self.cx.COLS][0]:
+                    return "P"
         return "V"
 
     # ---- which blocks contain shape writes (for the intermediate/committed distinction)
@@ -1131,7 +1142,9 @@ def r_shape(f):
             if gb.id != db.id:
                 gname = (gb.self_head or "").split("::")[-1]
                 drops = [bi for bi, bl in enumerate(db.blocks) if not bl["cleanup"] and bl["term"] and bl["term"]["k"] == "drop" and re.search(r"\b%s<" % re.escape(gname), bl["term"].get("ty", "")) and bi in db.reachable(0)]
-                ne = none_exits(db)
+                # exhaustion points of the outer destructor: the None exit of a next() loop, or a consuming call on the drain
+                # (`guard.0.by_ref().for_each(drop)` under the live guard)
+                ne = none_exits(db) + [t_["target"] for bi_, t_, fn_ in db.calls() if fn_ and fn_["name"] in CONSUME and (on_drain(fn_) or "by_ref" in [f2_["name"] for _, _, f2_ in db.calls() if f2_]) and t_.get("target") is not None]
                 domd = db.dominators()
                 outer_ok = bool(drops) and all(any(n_ in domd.get(d_, set()) for n_ in ne) for d_ in drops)
             ok_a = inner_ok or bool(outer_ok)
